@@ -225,8 +225,8 @@ impl Report {
         for (name, s) in &g.subs {
             evaluations += s.evaluations;
             nontrivial += s.nontrivial;
-            states += s.states;
-            transitions += s.transitions;
+            states += if s.states > 0 { s.states } else { s.evaluations };
+            transitions += if s.transitions > 0 { s.transitions } else { s.evaluations };
             for x in &s.samples {
                 samples.push(json!({"sub": name, "case": x}));
             }
